@@ -218,3 +218,30 @@ for _pid in ("C01", "C04", "C05", "C06", "C07", "C09"):
         "instantiating macro arguments; its table (Rust operator / ppv-lite86 trait method, vector type) -> Mach field, "
         "printed in the header of lean/CC/Gen/Kernels.lean; loops, macro bodies and control flow are NOT translated "
         "(tied by the correspondence only)"]
+
+
+# ---- configurations that depend on what the sources say (tools/inventory_cfgatoms.py): static builds for every
+#      target feature the sources mention beyond the known six, and a `-C target-cpu=native` build
+def _dynamic_cfgs(tier):
+    import cclib, inventory_cfgatoms as A
+    out = []
+    for feat in A.unknown_target_features():
+        c = cclib.register_tf_cfg(feat)
+        if c:
+            out.append(c)
+    return out
+
+
+for _pid in ("C03", "C12", "C13", "C14", "C20", "C01", "C04", "C06"):
+    PROPS[_pid]["dynamic_cfgs"] = _dynamic_cfgs
+for _pid, _tiers in (("C03", ("quick", "thorough")), ("C12", ("quick", "thorough")), ("C13", ("quick", "thorough")),
+                     ("C14", ("quick", "thorough")), ("C20", ("quick", "thorough")), ("C01", ("thorough",)), ("C04", ("thorough",)),
+                     ("C06", ("thorough",))):
+    for _t in _tiers:
+        _k = "cfgs_" + _t
+        if "std-native-release" not in PROPS[_pid][_k]:
+            PROPS[_pid][_k] = list(PROPS[_pid][_k]) + ["std-native-release"]
+PROPS["C03"]["theorems"] = list(PROPS["C03"]["theorems"]) + ["cfg_atoms_as_modelled"]
+PROPS["C20"]["theorems"] = list(PROPS["C20"]["theorems"]) + ["cfg_atoms_as_modelled"]
+if "nostd-avx2-release" not in PROPS["C14"]["cfgs_quick"]:
+    PROPS["C14"]["cfgs_quick"] = list(PROPS["C14"]["cfgs_quick"]) + ["nostd-avx2-release"]
